@@ -33,7 +33,7 @@ const REFRESH_KINDS: &[Kind] = &[
 fn gen(rng: &mut Rng, idx: u64, tier: Tier) -> Case {
     let s = 1_000_000i64;
     let d = *rng.pick(&[1i64, 5, 5, 60, 60, 600, 86_400]);
-    let n_ac = if rng.chance(0.1) { rng.range(8, 16) } else { rng.range(2, 5) } as usize;
+    let n_ac = match rng.below(20) { 0 | 1 => rng.range(8, 16), 2 => rng.range(24, 60), _ => rng.range(2, 5) } as usize;
     let addrs = gen::addresses(rng, n_ac);
     let mut acs: Vec<gen::Ac> = addrs.iter().map(|&a| gen::aircraft(rng, a)).collect();
     let mut args = vec![format!("--delete-after={}", d)];
@@ -90,7 +90,7 @@ fn gen(rng: &mut Rng, idx: u64, tier: Tier) -> Case {
         }
     }
     events.sort_by_key(|e| e.0);
-    events.truncate(horizon_frames.max(20) * 2);
+    events.truncate((horizon_frames.max(20) * 2).max(n_ac * 6));
     let mut lines: Vec<(i64, Vec<u8>, String)> = vec![];
     let mut prev = 0i64;
     for (t, a, kind) in events {
